@@ -676,4 +676,7 @@ func TestVerifC21(t *testing.T) { //nolint:cyclop,gocognit,maintidx
 		}
 	}
 	run.Set("hook_passes", sched.AllPasses())
+	// last: Close must return although media of an SSRC nobody accepts has arrived (c21_srtp_test.go)
+	sched.Perturb(0)
+	c21Unaccepted(run, 1000000, kit.N(16, 160))
 }
